@@ -15,6 +15,7 @@ type Case struct {
 	Extended bool           `json:"extended,omitempty"`
 	RFmts    []int16        `json:"rfmts,omitempty"`
 	Other    bool           `json:"other,omitempty"` // a second portal with complementary formats is bound in between
+	TLS      bool           `json:"tls,omitempty"`
 }
 
 const q = "select rows"
@@ -88,6 +89,10 @@ func Run(c Case) core.Result {
 	h := play.History{}
 	h.Cfg.Table.Q = map[string]script.Outcome{q: {Stmts: []script.Stmt{st}}}
 	h.Cfg.SetLimit, h.Cfg.Limit = true, 1<<16
+	h.TLS = c.TLS
+	if c.TLS {
+		res.Labels = append(res.Labels, "inside-tls")
+	}
 	if c.Extended {
 		h.Msgs = []script.CMsg{{K: "P", Query: q}, {K: "B", RFmts: c.RFmts}}
 		if c.Other {
